@@ -142,6 +142,7 @@ type Gen struct {
 	escaped   map[string]bool // Local: heaps whose address escaped
 	nLocal    int
 	replay    *ReplayPlan
+	onlyAsserts bool
 	lookups   []lookupRec
 	heapElem  map[string]types.Type // Go type of the values stored in a heap (for well-formedness axioms)
 	heapDepth map[string]int        // number of index levels (1: field/cell, 2: elems/map values)
@@ -614,6 +615,10 @@ func (g *Gen) typeInv(t string, ty types.Type, st *State, depth int) string {
 
 func (g *Gen) oblige(kind, name, label string, props []string, reach, cond, src string, pos token.Pos) *Oblig {
 	if g.pure > 0 {
+		return &Oblig{Name: name, Gen: g}
+	}
+	if g.onlyAsserts && kind != "assert" && kind != "requires-sat" && kind != "cover" && kind != "cover-info" {
+		// `nobody` contract with anchored asserts: everything else about the function stays assumed
 		return &Oblig{Name: name, Gen: g}
 	}
 	o := &Oblig{Name: name, Kind: kind, Label: label, Props: props, Reach: reach, Cond: cond, Src: src, Gen: g, Expect: "unsat"}
